@@ -411,6 +411,32 @@ class AI:
         if e is not None and e[0]:
             st.cons[lf_key(e)] = e
 
+    def refine_bool(self, st, e, pol, depth=0):
+        """State refined by `e` having truth value pol, for compound conditions: negation, conjunction, disjunction (the
+        two ways of satisfying it are joined) and helpers that only compute a value (their expression, see q.expr_helper)."""
+        e0 = q.strip_casts(e)
+        if not q.is_node(e0) or depth > 6:
+            return st
+        if e0['k'] == 'un' and e0['op'] == '!':
+            return self.refine_bool(st, e0['e'], not pol, depth + 1)
+        if e0['k'] == 'call' and e0.get('opc') == '!' and e0.get('args'):
+            return self.refine_bool(st, e0['args'][0], not pol, depth + 1)
+        if e0['k'] == 'bin' and e0['op'] in ('&&', '||'):
+            conj = (e0['op'] == '&&') == bool(pol)      # both operands decided the same way
+            if conj:
+                st = self.refine_bool(st, e0['lhs'], pol, depth + 1)
+                return self.refine_bool(st, e0['rhs'], pol, depth + 1)
+            # a && b false  /  a || b true: either the first operand decides, or it does not and the second does
+            s1 = self.refine_bool(st.copy(), e0['lhs'], pol, depth + 1)
+            s2 = self.refine_bool(st.copy(), e0['lhs'], not pol, depth + 1)
+            s2 = self.refine_bool(s2, e0['rhs'], pol, depth + 1)
+            return s1.join(s2, self.fresh)
+        h = q.expr_helper(e0)
+        if h is not None:
+            return self.refine_bool(st, h[1], pol, depth + 1)
+        self.refine(st, e0, pol)
+        return st
+
     # ---- fixpoint -----------------------------------------------------------
     def _run(self):
         fn = self.fn
@@ -448,8 +474,7 @@ class AI:
                 es = st.copy()
                 if cond is not None and len(succ) == 2 and succ[0] != succ[1]:
                     pol = (idx == 0) != neg
-                    for atom, p in q.conjuncts(cond, pol):
-                        self.refine(es, atom, p)
+                    es = self.refine_bool(es, cond, pol)
                 if s not in state_in:
                     state_in[s] = es
                     work.append(s)
